@@ -132,6 +132,44 @@ pub fn check_spec(st: &mut Stats, c: &Spec) {
     all_specs!(Op::DT_format, dt);
 }
 
+/// The two public enum conversions `Month::from(usize)` and `WeekDay::from(usize)`.
+pub struct EnumConv {
+    /// 0 = Month, 1 = WeekDay
+    pub which: u8,
+    pub k: usize,
+}
+impl Case for EnumConv {
+    fn to_json(&self) -> Value {
+        json!({"kind": "enum-from-usize", "type": if self.which == 0 { "Month" } else { "WeekDay" }, "k": self.k as u64})
+    }
+}
+pub fn check_enum(st: &mut Stats, c: &EnumConv) {
+    use sqldatetime::{Month, WeekDay};
+    let (name, lim) = if c.which == 0 { ("Month", 12usize) } else { ("WeekDay", 7usize) };
+    st.op(if c.which == 0 { Op::X_month_from_usize } else { Op::X_weekday_from_usize });
+    let (which, k) = (c.which, c.k);
+    // an inner boundary so that the finding is keyed by the call, not by a source line
+    let r = guard(move || if which == 0 { Month::from(k) as usize } else { WeekDay::from(k) as usize });
+    let inside = (1..=lim).contains(&k);
+    match r {
+        Ok(v) => {
+            if inside && v != k {
+                st.fail(format!("C03/{}::from(usize)/wrong-variant", name), format!("{}::from({}) is variant number {}", name, k, v));
+            }
+        }
+        Err(p) => {
+            if inside {
+                st.fail(format!("C03/{}::from(usize)/panics-inside-1..={}", name, lim), format!("{}::from({}) panicked: {}", name, k, p));
+            } else {
+                // The conversion documents this panic ("# Panics: if out of range of 1..=lim") and the property quantifies
+                // over the functions of the six date/time types: observed and counted, not judged.
+                st.unspecified += 1;
+                st.bump("documented panics of Month::from / WeekDay::from outside their domain (outside the quantifier, not judged)");
+            }
+        }
+    }
+}
+
 /// An `AsRef<str>` argument whose text is not the same on every call (nothing obliges it to be): `first` on the
 /// first `switch_at` calls, `later` afterwards.
 pub struct Shifting<'a> {
@@ -258,6 +296,13 @@ pub fn run(ctx: &Ctx, st: &mut Stats) {
                     st.eval(&Spec { pic, w, p }, check_spec);
                 }
             }
+        }
+    }
+    // 2a'. the public enum conversions from an integer
+    st.stratum("Month::from(usize) / WeekDay::from(usize) on 0..=40 and extremes", true);
+    for which in [0u8, 1] {
+        for k in (0usize..=40).chain([255, 256, 65_535, u32::MAX as usize, usize::MAX - 1, usize::MAX, usize::MAX / 2 + 1]) {
+            st.eval(&EnumConv { which, k }, check_enum);
         }
     }
     // 2c. text arguments that are not the same on every `as_ref` call
@@ -407,6 +452,11 @@ pub fn run(ctx: &Ctx, st: &mut Stats) {
 }
 
 pub fn replay(v: &Value, st: &mut Stats) -> bool {
+    if jstr(v, "kind") == "enum-from-usize" {
+        let k = v.get("k").and_then(|x| x.as_u64()).unwrap_or(0) as usize;
+        st.eval(&EnumConv { which: if jstr(v, "type") == "Month" { 0 } else { 1 }, k }, check_enum);
+        return true;
+    }
     if jstr(v, "kind") == "display-spec" {
         let pic = jstr(v, "picture");
         st.eval(&Spec { pic: &pic, w: ji64(v, "width") as usize, p: ji64(v, "precision") as usize }, check_spec);
